@@ -69,6 +69,9 @@ class Engine:
     def preregister(self):
         """Register the heap arrays of every schema field (and of the container kinds they mention)
         so that `modifies` patterns can be expanded before the arrays are first touched."""
+        self._heap_kinds.setdefault("G:is_tuple", KBool)
+        self._heap_kinds.setdefault("G:dynclass", KInt)
+
         def reg_kind(k):
             if isinstance(k, KList):
                 self.lnames(k)
